@@ -27,6 +27,7 @@ from mc import exact
 
 LEVEL = 'exploration'
 FRESH_PROCESS_PER_JOB = True
+MASK_SEED = 0     # seed of the seeded mask streams: fixed, so that --seed cannot change which shares the parties hold
 K_SP = 6          # < 8: the probabilistic zero test runtime._is_zero (error 2^-k by design) is never selected
 RULE = ('one case = (group, operation incl. exponent and operand kinds, element tuple, configuration (m,t,PRSS), mask script); '
         'single party: all element pairs of the groups of order <= 24 and of the 6-element curve alphabets x {seeded, all-zero, '
@@ -236,8 +237,13 @@ class GOp:
     """arity; fn(*plain elements) -> secure result | Future; ref(*plain elements) -> plain result | None (skip);
     res = 'elem' | 'bit'; mode = 'secure' | 'public'; cls(codes) -> input class for the violation key; site = key part."""
 
-    def __init__(self, arity, fn, ref, res, mode, site, cls):
+    def __init__(self, arity, fn, ref, res, mode, site, cls, law=None):
         self.arity, self.fn, self.ref, self.res, self.mode, self.site, self.cls = arity, fn, ref, res, mode, site, cls
+        self.law = law        # known-defect class: law(elems, p, l) -> plain results that defect produces (else: another key)
+
+
+class OpTable(dict):
+    zinfo = None              # (modulus of the secure-integer exponent type's field, its bit length) -- real builds only
 
 
 def exp_class(e, order):
@@ -254,7 +260,7 @@ def build_ops(fam, mpc, m):
     """The operation table of one family.  `mpc` may be exact.Dummy() (names, refs and classes only)."""
     G = fam.G
     S = mpc.SecGrp(G)
-    ops = {}
+    ops = OpTable()
     snd = m - 1
     additive, multiplicative = G.is_additive, G.is_multiplicative
     order = fam.order
@@ -268,10 +274,10 @@ def build_ops(fam, mpc, m):
     def bit(b):
         return mpc.input(S.sectype(b), senders=0)
 
-    def add(name, arity, fn, ref, res='elem', mode='secure', cls=None, site=None):
+    def add(name, arity, fn, ref, res='elem', mode='secure', cls=None, site=None, law=None):
         if cls is None:
             cls = (lambda c: fam.pair_class(*c)) if arity == 2 else (lambda c: 'identity' if fam.is_id(c[0]) else 'generic')
-        ops[name] = GOp(arity, fn, ref, res, mode, site or name.split(':')[0], cls)
+        ops[name] = GOp(arity, fn, ref, res, mode, site or name.split(':')[0], cls, law)
 
     def admissible2(a, b, r):
         """Costello-Lauter: generic full-degree operands and result only."""
@@ -297,6 +303,9 @@ def build_ops(fam, mpc, m):
         for c in (0, 1):
             add(f'ifelse{c}:{v}', 2, lambda a, b, s=s, c=c: S.if_else(bit(c), s(a), s(b)), lambda a, b, c=c: a if c else b,
                 site='if_else')
+    if fam.kind == 'EC':      # the same point in two representations (as computed / normalised) must compare equal
+        for v in ('c', 'i'):
+            add(f'eq_repr:{v}', 1, lambda a, s=sec(v): s(a) == s(a.normalize()), lambda a: 1, res='bit', site='eq(two representations)')
     s = sec('c')
     add('op_sp:c', 2, lambda a, b: s(a) @ b, lambda a, b: admissible2(a, b, G.operation(a, b)), site='op(secure,public)')
     add('op_ps:c', 2, lambda a, b: a @ s(b), lambda a, b: admissible2(a, b, G.operation(a, b)), site='op(public,secure)')
@@ -367,14 +376,18 @@ def build_ops(fam, mpc, m):
                 return None if fam.cl else G.repeat(a, ev)
             ecls = (lambda c, ev=ev, e=e, tag=tag: exp_class(e if tag == 'Z' else ev, order if tag == 'Z' else -1)
                     + ('' if not fam.is_id(c[0]) else ':identity'))
-            # public base with a secure INTEGER exponent and m > 1: one input class (the outcome depends on the shares, not on x)
+            # public base with a secure INTEGER exponent and m > 1: one input class.  Known defect class (F1): the parties raise a
+            # to int(lambda_i x_i) and the exponents add up to x + j p (p = modulus of the integer type's field, |j| <= m)
             pcls = (lambda c: 'm>1') if tag == 'Z' and m > 1 else ecls
+            plaw = (lambda a, p, l, e=e: [G.repeat(a[0], e + j * p) for j in range(-m, m + 1) if j]) if tag == 'Z' and m > 1 else None
+            # secret base, negative secure integer (F2): to_bits gives the two's complement, the result is a^(x + 2^l)
+            slaw = (lambda a, p, l, e=e: [G.repeat(a[0], e + (1 << l))]) if tag == 'Z' and e < 0 else None
             # secret base with a field exponent and m > 1 goes through runtime.to_bits on a shared field element: one class
             scls = (lambda c: 'm>1') if tag == 'F' and m > 1 else ecls
             tn = {'F': 'field exponent', 'Z': 'secint exponent'}[tag]
-            add(f'reps_pb:{tag}:{e}', 1, lambda a, x=x: S.repeat(a, x()), pb_ref, cls=pcls, site=f'repeat(public base, {tn})')
+            add(f'reps_pb:{tag}:{e}', 1, lambda a, x=x: S.repeat(a, x()), pb_ref, cls=pcls, site=f'repeat(public base, {tn})', law=plaw)
             add(f'reppub:{tag}:{e}', 1, lambda a, x=x: S.repeat_public(a, x()), pb_ref, mode='public', cls=pcls,
-                site=f'repeat_public({tn})')
+                site=f'repeat_public({tn})', law=plaw)
             if e in (2, -1) and tag == 'F':
                 add(f'rxor_pb:{tag}:{e}', 1, lambda a, x=x: a ^ x(), pb_ref, cls=ecls, site=f'a^[x] (public base, {tn})')
                 if additive:
@@ -386,9 +399,12 @@ def build_ops(fam, mpc, m):
                     continue          # one 250-bit ladder costs ~500 secure curve additions
                 for v in (('c', 'i') if e in (2, -1) else ('c',)):
                     add(f'reps_sb:{tag}:{e}:{v}', 1, lambda a, x=x, s=sec(v): S.repeat(s(a), x()), sb_ref, cls=scls,
-                        site=f'repeat(secret base, {tn})')
+                        site=f'repeat(secret base, {tn})', law=slaw)
                 if e == 2 and tag == 'F':
                     add(f'xor_sb:{tag}:{e}', 1, lambda a, x=x: s(a) ^ x(), sb_ref, cls=scls, site=f'[a]^[x] ({tn})')
+    if not isinstance(mpc, exact.Dummy):
+        Z = etypes[-1][1]()
+        ops.zinfo = (int(Z.field.modulus), int(Z.bit_length))
     return ops
 
 
@@ -398,8 +414,24 @@ def result_code(fam, op, got):
     return fam.code(got)
 
 
-def vkey(fam, op, vals):
-    return f'C28:{fam.key}:{op.site}:{op.cls(tuple(vals))}'
+def vkey(fam, op, vals, failure=None):
+    """C28:<family>:<call site>:<input class>; failures other than a wrong value: ...:<failure>(<input class>)."""
+    cls = op.cls(tuple(vals))
+    return f'C28:{fam.key}:{op.site}:' + (f'{failure}({cls})' if failure else cls)
+
+
+def wrong_key(fam, op, vals, got, zinfo):
+    """Key of a wrong result: the input class -- unless the class is a recorded defect class with a law and the result does not
+    follow that law (then: another key, so that new misbehaviour inside a known class is not masked)."""
+    cls = op.cls(tuple(vals))
+    if op.law is not None and zinfo is not None:
+        try:
+            alts = [result_code(fam, op, r) for r in op.law([fam.elem(v) for v in vals], *zinfo)]
+        except Exception:
+            alts = []
+        if got not in alts:
+            return f'C28:{fam.key}:{op.site}:unexplained({cls})'
+    return f'C28:{fam.key}:{op.site}:{cls}'
 
 
 # ------------------------------------------------------------------------------------------
@@ -447,26 +479,26 @@ def run_sp(job):
                     mode, script = scripts[i]
                     i += 1
                     detail = dict(engine='sp', spec=list(fam.spec), name=name, vals=list(vals), mode=mode,
-                                  script={str(a): b for a, b in (script or {}).items()}, seed=job['seed'])
+                                  script={str(a): b for a, b in (script or {}).items()}, seed=MASK_SEED)
                     try:
                         with Deadline(120):
-                            got, draws = eval_sp(mpc, seam, fam, op, vals, mode, script, job['seed'])
+                            got, draws = eval_sp(mpc, seam, fam, op, vals, mode, script, MASK_SEED)
                     except CpuTimeout:
                         part.case(key=None)
-                        part.violation(vkey(fam, op, vals) + ':hangs', f'[{cfg}] {fam.name} {name}{tuple(vals)}: no result within 120 s of '
+                        part.violation(vkey(fam, op, vals, 'hangs'), f'[{cfg}] {fam.name} {name}{tuple(vals)}: no result within 120 s of '
                                        f'CPU time (masks: {mode} {script})', detail)
                         part.caps.append('CPU budget hit')
                         return part
                     except Exception as exc:
                         part.case(key=None)
-                        part.violation(vkey(fam, op, vals) + ':exception', f'[{cfg}] {fam.name} {name}{tuple(vals)} raised {exc!r:.200} '
+                        part.violation(vkey(fam, op, vals, 'exception'), f'[{cfg}] {fam.name} {name}{tuple(vals)} raised {exc!r:.200} '
                                        f'(masks: {mode} {script})', detail)
                         continue
                     part.case(key=None, nontrivial=bool(draws))
                     part.outcomes.add(stable_hash((fam.name, name, got)) & 0xffffff)
                     if got != want:
-                        part.violation(vkey(fam, op, vals), f'[{cfg}] {fam.name} {name}{tuple(vals)} = {got!r:.160}, plain group gives '
-                                       f'{want!r:.160} (masks: {mode} {script})', detail)
+                        part.violation(wrong_key(fam, op, vals, got, ops.zinfo), f'[{cfg}] {fam.name} {name}{tuple(vals)} = {got!r:.160}, '
+                                       f'plain group gives {want!r:.160} (masks: {mode} {script})', detail)
                     if i == 1 and extra:       # after the seeded probe: point scripts on the reduced alphabet
                         scripts = scripts + [sc for sc in sp.mask_scripts(draws, tier, max_points=points) if sc[0] not in modes]
                     if i == 1 and len(part.samples) < 2 and draws and op.arity == 2 and not fam.is_id(vals[0]):
@@ -487,17 +519,19 @@ def replay_sp(case):
     part = Part()
     mpc, seam = sp.setup(sec_param=K_SP, no_prss=True)
     fam = Fam(sys.modules['mpyc.fingroups'], case['spec'])
-    op = build_ops(fam, mpc, 1)[case['name']]
+    ops = build_ops(fam, mpc, 1)
+    op = ops[case['name']]
     vals = tuple(tuple(v) if isinstance(v, list) else v for v in case['vals'])
     script = {int(a): b for a, b in case['script'].items()} or None
     want = result_code(fam, op, op.ref(*[fam.elem(v) for v in vals]))
     try:
         got, _ = eval_sp(mpc, seam, fam, op, vals, case['mode'], script, case['seed'])
     except Exception as exc:
-        part.violation(vkey(fam, op, vals) + ':exception', f'{fam.name} {case["name"]}{vals} raised {exc!r:.200}', case)
+        part.violation(vkey(fam, op, vals, 'exception'), f'{fam.name} {case["name"]}{vals} raised {exc!r:.200}', case)
         return part
     if got != want:
-        part.violation(vkey(fam, op, vals), f'{fam.name} {case["name"]}{vals} = {got!r:.160}, plain group gives {want!r:.160}', case)
+        part.violation(wrong_key(fam, op, vals, got, ops.zinfo), f'{fam.name} {case["name"]}{vals} = {got!r:.160}, plain group gives '
+                       f'{want!r:.160}', case)
     return part
 
 
@@ -512,6 +546,7 @@ def mp_program(spec, m):
         if fam is None:
             fam = ctx['fam'] = Fam(sys.modules['mpyc.fingroups'], spec)      # this party's own copy of the package
         ops = build_ops(fam, mpc, m)
+        ctx['zinfo'] = ops.zinfo
         res = []
         for idx, (name, vals) in enumerate(ctx['cases']):
             op = ops[name]
@@ -551,7 +586,7 @@ def run_mp(job):
     m, t, no_prss = job['m'], job['t'], job['no_prss']
     rfam = Fam(plain_fg(), job['spec'])
     rops = build_ops(rfam, exact.Dummy(), m)
-    k = exact.sec_param_for(m, t, 4)
+    k = job.get('k') or exact.sec_param_for(m, t, 4)
     world = exact.make_world(m, t, no_prss, k)
     world.HORIZON = 1_200_000          # a stuck execution must end soon (normal batches need < 2 * 10^5 steps)
     seams = world.script_seams
@@ -572,12 +607,12 @@ def run_mp(job):
             w.pattern_budget = 400 * len(chunk)
             w.pattern_decisions = {}
             for i, s in enumerate(seams):
-                s.begin(pat, job['seed'] * 100 + i, None)
+                s.begin(pat, MASK_SEED * 100 + i, None)
             for p in range(m):
                 ctxs.append(dict(cases=chunk, fam=fams[p]))
                 w.spawn(p, program, ctxs[p])
         for i, s in enumerate(seams):
-            s.begin(pat, job['seed'] * 100 + i, None)
+            s.begin(pat, MASK_SEED * 100 + i, None)
         x = run_execution(world, setup, (), 'eager', 'none', sched_alts=False)
         part.transitions += x.nsteps
         for p in range(m):
@@ -595,11 +630,11 @@ def run_mp(job):
             part.outcomes.add(stable_hash((rfam.name, name, gots[0])) & 0xffffff)
             key = vkey(rfam, op, vals)
             if any(g != gots[0] for g in gots):
-                part.violation(key + ':parties-differ', f'[{cfg}] {rfam.name} {name}{vals}: parties obtained {gots!r:.240} (masks {pat})', detail)
+                part.violation(vkey(rfam, op, vals, 'parties-differ'), f'[{cfg}] {rfam.name} {name}{vals}: parties obtained {gots!r:.240} (masks {pat})', detail)
             elif isinstance(gots[0], tuple) and gots[0] and gots[0][0] == 'raised':
-                part.violation(key + ':exception', f'[{cfg}] {rfam.name} {name}{vals} raised {gots[0][1]}', detail)
+                part.violation(vkey(rfam, op, vals, 'exception'), f'[{cfg}] {rfam.name} {name}{vals} raised {gots[0][1]}', detail)
             elif gots[0] != want:
-                part.violation(key, f'[{cfg}] {rfam.name} {name}{vals} = {gots[0]!r:.160}, plain group gives {want!r:.160} '
+                part.violation(wrong_key(rfam, op, vals, gots[0], ctxs[0].get('zinfo')), f'[{cfg}] {rfam.name} {name}{vals} = {gots[0]!r:.160}, plain group gives {want!r:.160} '
                                f'(masks {pat})', detail)
             if len(part.samples) < 1 and op.arity == 2 and idx == 3:
                 part.sample(dict(config=cfg, group=rfam.name, op=name, inputs=[repr(v)[:60] for v in vals], mask_pattern=pat,
@@ -621,7 +656,7 @@ def run_mp(job):
                     name, vals = case
                     part.case(key=None)
                     errs = [e for es in world.loop_errors for e in es][:2]
-                    part.violation(vkey(rfam, rops[name], vals) + ':mp-incomplete',
+                    part.violation(vkey(rfam, rops[name], vals, 'mp-incomplete'),
                                    f'[{cfg}] {rfam.name} {name}{vals} ends {st1}: {errs!r:.300} (masks {pat})',
                                    dict(engine='mp', job=job, lo=lo + j, pat=pat, name=name, vals=list(vals)))
     part.note('blinding_draws_forced_nonzero', sum(s.blinding_forced for s in seams) + getattr(world, 'blinding_forced', 0))
@@ -646,6 +681,7 @@ MP_OPS_LIGHT = ['op:i', 'inv:i', 'eq:i', 'ifelse1:i', 'rep:-2:i', 'op_ps', 'reps
                 'reps_pb:Z:2', 'reps_sb:Z:-1:c', 'reps_sb:Z:2:i', 'xmul_pb:F:2', 'rpow_pb:F:2', 'rxor_pb:F:-1']
 MP_OPS_CL = ['op:i', 'inv:i', 'eq:i', 'ifelse1:i', 'reps_pb:F:2', 'reppub:F:-1', 'reps_pb:Z:2', 'reppub:Z:-1']
 CORE_BIN = ['op:c', 'eq:c']
+FOPS = ['reps_pb:F', 'reppub:F', 'rxor_pb:F', 'xmul_pb:F', 'rpow_pb:F', 'reps_sb:F', 'xor_sb:F']     # take a SecFld exponent
 
 
 def jobs(tier, seed):
@@ -679,58 +715,86 @@ def jobs(tier, seed):
             for name in ladder:
                 sp(spec, [dict(ops=[name], modes=('seeded', 'max'), points=0)])
             continue
-        heavy = kind in ('Cl', 'EC') or spec in (('Sym', 4), ('Sym', 6))
-        if not heavy:
-            sp_split(spec, sorted(unary + binary), 1, points=2)
-            continue
-        if kind == 'Cl':
-            unary = [n for n in unary if n.split(':')[0] in ('inv', 'sq', 'recip', 'reps_pb', 'reppub')
-                     or n in ('rep:-2:c', 'rep:3:i', 'rep:0:c', f'rep:{len(Fam(fg, spec).dom)}:c', 'pow:-2:c', 'rpow_pb:F:2',
-                              'reps_sb:F:2:i', 'reps_sb:F:-1:c', 'reps_sb:Z:-1:c', 'reps_sb:Z:2:i')]
+        # quick tier: every operation / call site at least once per family; all pairs only for the core operations of the
+        # small groups; seeded masks plus the all-max pattern (the thorough tier adds all-zero and the point scripts)
+        rest = [n for n in binary if n not in CORE_BIN]
+        if kind in ('QR', 'SG') or spec == ('Sym', 3):
+            big = spec == ('SG', 47, 23)
+            sp(spec, [dict(ops=CORE_BIN, modes=('seeded',) if big else ('seeded', 'max'), points=0 if big else 1),
+                      dict(ops=sorted(unary), modes=('seeded',), points=0),
+                      dict(ops=rest, dom='red' if big or spec == ('QR', 23) else 'full', modes=('seeded', 'max'), points=0)])
+        elif kind == 'Sym':
+            light = [n for n in unary if not n.startswith(('reps_sb', 'reppub', 'xor_sb'))] + ['reps_sb:Z:-1:c', 'reps_sb:Z:2:i', 'reps_sb:F:2:i', 'reppub:F:2', 'reppub:Z:2']
+            sp(spec, [dict(ops=CORE_BIN, dom='red', modes=('seeded', 'max'), points=1),
+                      dict(ops=rest, dom='red', modes=('seeded',), points=0)])
+            sp(spec, [dict(ops=sorted(light), dom='red', modes=('seeded',), points=0)])
+        elif kind == 'Cl':
+            unary = [n for n in unary if n.split(':')[0] in ('inv', 'sq', 'recip', 'reps_pb')
+                     or n in ('rep:-2:c', 'rep:3:i', 'rep:0:c', f'rep:{len(Fam(fg, spec).dom)}:c', 'pow:-2:c', 'rpow_pb:F:2', 'reppub:F:2',
+                              'reppub:Z:-1', 'reps_sb:F:2:i', 'reps_sb:F:-1:c', 'reps_sb:Z:-1:c', 'reps_sb:Z:2:i')]
             small = spec == ('Cl', -23)
-            modes = ('seeded', 'zero', 'max') if small else ('seeded',)
-            sp(spec, [dict(ops=CORE_BIN, modes=modes, points=2 if small else 0)])
-            sp_split(spec, sorted(unary), 2, modes=modes, points=1 if small else 0)
-            sp(spec, [dict(ops=[n for n in binary if n not in CORE_BIN and n.split(':')[0] not in ('chain', 'rdiv', 'rmul')],
-                           dom='red', modes=('seeded',), points=0)])
-        elif kind == 'EC':
-            sp(spec, [dict(ops=CORE_BIN, modes=('seeded', 'max'), points=1),
-                      dict(ops=[n for n in binary if n not in CORE_BIN and n != 'chain:c'], dom='red', modes=('seeded',), points=0)])
-            sp(spec, [dict(ops=sorted(unary), modes=('seeded',), points=0),
-                      dict(ops=['inv:c', 'sq:c', 'rep:-2:c', 'reps_pb:F:-1', 'reps_sb:Z:2:i'], dom='red', modes=('max', 'zero'), points=0),
-                      dict(ops=['reps_sb:F:2:i'], vals=[1], modes=('seeded',), points=0)])
-        else:
-            sp_split(spec, CORE_BIN, 2, points=2)
-            sp(spec, [dict(ops=[n for n in sorted(unary) if not n.startswith('reps_sb')], points=2),
-                      dict(ops=['reps_sb'], dom='red', modes=('seeded', 'max'), points=0)])
-            sp(spec, [dict(ops=[n for n in binary if n not in CORE_BIN], dom='red', modes=('seeded', 'max'), points=2)])
+            sp(spec, [dict(ops=CORE_BIN, dom='full' if spec != ('Cl', -71) else 'red', modes=('seeded', 'max') if small else ('seeded',),
+                           points=0)])
+            if small:
+                sp_split(spec, sorted(unary), 2, modes=('seeded',), points=0)
+                sp(spec, [dict(ops=[n for n in rest if n.split(':')[0] not in ('chain', 'rdiv', 'rmul')], dom='red', modes=('seeded',),
+                               points=0)])
+            else:
+                sp(spec, [dict(ops=['inv:c', 'sq:i', 'rep:-2:c', 'reps_pb:F:-1', 'reps_sb:F:2:i', 'reps_sb:Z:-1:c', 'ifelse1:i', 'op_ps:c'],
+                               dom='red', modes=('seeded',), points=0)])
+        else:   # curves
+            sp(spec, [dict(ops=CORE_BIN, modes=('seeded',), points=0),
+                      dict(ops=[n for n in rest if n != 'chain:c'], vals=[1, -1, 2], modes=('seeded',), points=0),
+                      dict(ops=['eq:c', 'sq:c', 'reps_pb:F:-1'], vals=[2, 'N2'], modes=('max', 'zero'), points=0)])
+            sp(spec, [dict(ops=sorted(unary), dom='red', modes=('seeded',), points=0)])
     if q:
-        sp(('EC', 'Ed25519', 'extended'), [dict(ops=['reps_sb:F:-1:c'], vals=[-2], modes=('seeded',), points=0)])
+        sp(('EC', 'Ed25519', 'extended'), [dict(ops=['reps_sb:F:2:i', 'reps_sb:F:-1:c'], vals=[1], modes=('seeded',), points=0)])
+        sp(('EC', 'secp256k1', 'projective'), [dict(ops=['reps_sb:F:2:i'], vals=[-2], modes=('seeded',), points=0)])
 
     # ---- multi-party
-    def mp(spec, m, t, no_prss, ops, parts=1, **kw):
-        for part in range(parts):
-            out.append(dict(engine='mp', spec=spec, m=m, t=t, no_prss=no_prss, ops=ops, part=part, parts=parts, tier=tier, seed=seed, **kw))
+    fams = {}
+
+    def mp(spec, m, t, no_prss, ops, parts=1, skip=None, **kw):
+        """Operations with a SecFld exponent run in a separate world with k = 30 and seeded masks only (runtime.to_bits /
+        conversions of shared field elements are right only up to the statistical slack of their masks)."""
+        fops = FOPS if ops is None else [o for o in ops if any(o == f or o.startswith(f + ':') for f in FOPS)]
+        rops = None if ops is None else [o for o in ops if o not in fops]
+        fam = fams.get(spec) or fams.setdefault(spec, Fam(fg, spec))
+        if fops and not mp_cases(fam, m, fops, skip, kw.get('vals')):
+            fops = []             # e.g. secret bases with a lifted exponent field: nothing in the domain
+        if rops is None or rops:
+            for part in range(parts):
+                out.append(dict(engine='mp', spec=spec, m=m, t=t, no_prss=no_prss, ops=rops, skip=(skip or []) + FOPS, part=part, parts=parts,
+                                tier=tier, seed=seed, **kw))
+        if fops:
+            kw = dict(kw, patterns=('seeded',), k=30)
+            np_ = 1 if q else max(1, parts // 2)
+            for part in range(np_):
+                out.append(dict(engine='mp', spec=spec, m=m, t=t, no_prss=no_prss, ops=fops, skip=skip, part=part, parts=np_, tier=tier,
+                                seed=seed, **kw))
     for (m, t) in ((3, 1), (5, 2)):
         for no_prss in (False, True):
             sym = ('Sym', 4) if m == 3 else ('Sym', 6)
             if q:
                 pats = ('seeded', 'max') if m == 3 else ('seeded',)
-                if m == 3:
-                    mp(sym, m, t, no_prss, MP_OPS_LIGHT, parts=2, vals=Fam(fg, sym).mpdom[1:4], patterns=('seeded',), batch=8)
-                else:
-                    mp(sym, m, t, no_prss, ['op:i', 'inv:i', 'eq:i', 'ifelse1:i', 'reps_pb:F:2', 'reps_sb:Z:2:i'], parts=2, vals=[SYM6[3]],
-                       patterns=('seeded',), batch=3)
-                for spec in (('QR', 7), ('QR', 11)) + ((('SG', 23, 11),) if m == 3 else ()):     # exponent fields GF(3), GF(5): lifted
-                    mp(spec, m, t, no_prss, MP_OPS, vals=Fam(fg, spec).mpdom[:3], patterns=pats if spec != ('QR', 7) else ('seeded',))
-                if m == 3:          # class groups at (5,2): thorough tier only (~30 s per operation)
-                    mp(('Cl', -23), m, t, no_prss, ['op:i', 'eq:i', 'reps_pb:F:2', 'reps_pb:Z:2'], parts=2, vals=[(2, 1, 3)],
-                       patterns=('seeded',), batch=2)
+                # symmetric and class groups: one PRSS mode per (m, t) in the quick tier (both in the thorough tier)
+                if m == 3 and not no_prss:
+                    mp(sym, m, t, no_prss, [o for o in MP_OPS_LIGHT if o not in ('rep:-2:i', 'op_ps')], vals=[(1, 0, 2, 3), (1, 2, 0, 3)],
+                       patterns=('seeded',), batch=8)
+                if m == 5 and no_prss:
+                    mp(sym, m, t, no_prss, ['op:i', 'inv:i', 'reps_sb:Z:2:i', 'eq:i', 'reps_pb:F:2', 'ifelse1:i'],
+                       vals=[SYM6[3]], patterns=('seeded',), batch=3)
+                for spec in (('QR', 7), ('QR', 11)) + ((('SG', 23, 11),) if m == 3 and not no_prss else ()):
+                    # exponent fields GF(3), GF(5): lifted at m >= 3 / m = 5
+                    mp(spec, m, t, no_prss, MP_OPS if m == 3 else MP_OPS_LIGHT + ['reps_sb:F:2:i', 'ifelse0:i', 'sq:i'],
+                       vals=Fam(fg, spec).mpdom[:3], patterns=('seeded',))
+                if m == 3 and not no_prss:          # class groups at (5,2): thorough tier only (~30 s per operation)
+                    mp(('Cl', -23), m, t, no_prss, ['op:i', 'reps_pb:Z:2', 'eq:i', 'reps_pb:F:2'], vals=[(2, 1, 3)], patterns=('seeded',), batch=2)
                 curve = {(3, False): ('EC', 'Ed25519', 'extended'), (3, True): ('EC', 'secp256k1', 'projective'),
                          (5, False): ('EC', 'Ed25519', 'projective'), (5, True): ('EC', 'Ed25519', 'affine')}[m, no_prss]
-                mp(curve, m, t, no_prss, ['op:i', 'inv:i', 'eq:i', 'ifelse1:i', 'reps_pb:F:-1', 'reppub:F:2', 'reps_pb:Z:2', 'reps_sb:Z:-1:c'],
-                   parts=2, vals=[1, 2], patterns=('seeded',), batch=6)
-                mp(curve, m, t, no_prss, ['eq:i'], vals=[2, 'N2'], patterns=('seeded',), batch=4)     # two representations of 2G
+                mp(curve, m, t, no_prss, ['op:i', 'inv:i', 'ifelse1:i', 'reps_pb:F:-1', 'reppub:F:2', 'reps_pb:Z:2', 'reps_sb:Z:-1:c'],
+                   vals=[1, 2], patterns=('seeded',), batch=6)
+                mp(curve, m, t, no_prss, ['eq_repr:i'], vals=[2], patterns=('seeded',), batch=4)     # two representations of 2G
             else:
                 pats = ('seeded', 'zero', 'max')
                 if m == 3:
@@ -750,7 +814,7 @@ def jobs(tier, seed):
                     mp(spec, m, t, no_prss, MP_OPS, skip=LADDER, parts=3, vals=[1, 2, 'N2'] if spec[0] == 'EC' else [1, 2, -1],
                        patterns=('seeded', 'max') if m == 3 and not more else ('seeded',), batch=8)
                 mp(('EC', 'Ed25519', 'extended'), m, t, no_prss, ['reps_sb:F:2:i'], vals=[1], patterns=('seeded',), batch=1)
-    return pack(out, 40 if q else 60, tier, seed)
+    return pack(out, 16 if q else 60, tier, seed)
 
 
 def weight(j):
@@ -769,7 +833,7 @@ def pack(atoms, nbins, tier, seed):
     """Group the atomic jobs into at most ~nbins worker jobs (one process each; a process keeps one party configuration)."""
     groups = {}
     for j in atoms:
-        groups.setdefault((j['engine'], j.get('m'), j.get('t'), j.get('no_prss')), []).append(j)
+        groups.setdefault((j['engine'], j.get('m'), j.get('t'), j.get('no_prss'), j.get('k')), []).append(j)
     total = sum(weight(j) for j in atoms)
     out = []
     for key in sorted(groups, key=repr):
